@@ -10,7 +10,7 @@ type-safe frozen dataclass consults), `conforms` the independent specification. 
 annotation of the vocabulary (any nesting depth, either spelling), every class table and every value.
 
 Full statement `Sound_full`; proved as `sound_partial` under two guards whose complements are the recorded regions
-`strAnnNameCollision` (a top-level string annotation is compared by *name*) and `namedtupleStructural` (a value with
+`namedtupleStructural` (a value with
 `_asdict` is compared structurally, without isinstance); one-shot iterators are excluded as values (their elements are
 deliberately not inspected — C04).  Each region has a negation witness below.
 -/
@@ -45,10 +45,15 @@ theorem one_bad_element_rejected (env : Env) (orc : Nat → Val → Raw) (hw : W
   apply corruption_rejected env orc hw hs _ _ (by simpa [Ann.noSpecial] using hns) hwf hp
   simp [conforms, Val.iter, hbad]
 
-/-- region `strAnnNameCollision`: an instance of the unrelated class A' (same `__name__` as A) is accepted for `'A'` -/
-theorem sound_fails_strAnnNameCollision :
-    checkType envW (fun _ _ => .raisedOther) (.strAnn 7) (.inst 8) = .accept ∧
-    conforms envW (.strAnn 7) (.inst 8) = false ∧ (Val.inst 8).wf envW = true ∧ (Val.inst 8).plain = true := by decide
+/-- (was region `strAnnNameCollision`, repaired by 9abf519) a string annotation that names a class of the context is
+    checked against that very class - for every class table, value and oracle, without any guard -/
+theorem strAnn_resolved_exact (env : Env) (orc : Nat → Val → Raw) (n : NameId) (c : ClsId) (v : Val) (hc : env.ctx n = some c) :
+    checkType env orc (.strAnn n) v = if env.sub (v.typeOf env) c then .accept else .reject := by
+  simp only [checkType, cfg_strBranch.1, ↓reduceIte, hc]
+/-- … so an instance of the unrelated class A' (same `__name__` as A) is rejected for `'A'` -/
+theorem strAnn_same_name_rejected :
+    checkType envW (fun _ _ => .raisedOther) (.strAnn 7) (.inst 8) = .reject ∧
+    conforms envW (.strAnn 7) (.inst 8) = false ∧ envW.name 8 = envW.name 7 := by decide
 
 /-- region `namedtupleStructural`: an NT2 instance is accepted for the annotation NT1 (same field names, unrelated class) -/
 theorem sound_fails_namedtupleStructural :
@@ -59,8 +64,8 @@ theorem sound_fails_namedtupleStructural :
 
 theorem Sound_full_is_false : ¬ Sound_full := by
   intro h
-  have w := sound_fails_strAnnNameCollision
-  have := h envW (fun _ _ => .raisedOther) (.strAnn 7) (.inst 8) envW_wf (by decide) w.2.2.1 w.1
+  have w := sound_fails_namedtupleStructural
+  have := h envW (fun _ _ => .raisedOther) _ _ envW_wf (by decide) w.2.2 w.1
   simp [w.2.1] at this
 
 -- non-vacuity: the hypotheses of `sound_partial` are met by a non-trivial accepted case and by a rejected near miss
@@ -78,14 +83,13 @@ def envU : Env := { envW with
   sub := fun a b => a == b || b == 0 || (a ≥ 1 && b == 1)
   name := fun c => if c == 0 then 0 else 1
   baseName := fun c => if c == 0 then none else some 0
-  ctx := fun n => if n == 0 then some 0 else if n == 1 then some 1 else none }
+  ctx := fun n => if n == 0 then some 0 else if n == 1 then some 1 else none
+  mroNames := fun c => if c == 0 then [0] else [1, 0] }
 example : StrAnnGuard envU := by
   intro t n h
-  by_cases ht : t = 0
-  · subst ht; simp [envU] at h; subst h; exact ⟨0, by simp [envU], by simp [envU]⟩
-  · rcases h with h | h
-    · simp [envU, ht] at h; subst h; exact ⟨1, by simp [envU], by simp [envU]; right; exact Nat.pos_of_ne_zero ht⟩
-    · simp [envU, ht] at h; subst h; exact ⟨0, by simp [envU], by simp [envU]⟩
+  have h0 : n ≠ 0 := by intro h'; subst h'; simp [envU] at h
+  have h1 : n ≠ 1 := by intro h'; subst h'; simp [envU] at h
+  by_cases ht : t = 0 <;> simp [envU, ht, h0, h1, Ne.symm h0, Ne.symm h1]
 end PedVerif.Checker
 
 
